@@ -760,6 +760,8 @@ class Executor:
         if s.orelse:
             raise OutOfSubset('for/else', s)
         it = s.iter
+        if self.loop_spec(s)[1] is None and self._append_loop(s, st, k):
+            return
         if isinstance(it, ast.Call) and isinstance(it.func, ast.Name) and it.func.id == 'range':
             return self.for_range(s, st, k)
         if self.theory and self.theory.for_enumerate(self, s, st, k):
@@ -791,6 +793,34 @@ class Executor:
                 pass
             else:
                 raise OutOfSubset('for over %s' % v.sort, s)
+
+    def _append_loop(self, s, st, k):
+        """xs = [] ... for T in IT: xs.append(E)   with xs still the empty list and no invariant given for the loop: the loop IS the
+        comprehension xs = [E for T in IT] (E does not mention xs) - evaluated by the comprehension rules"""
+        if not (len(s.body) == 1 and isinstance(s.body[0], ast.Expr) and isinstance(s.body[0].value, ast.Call)):
+            return False
+        c = s.body[0].value
+        if not (isinstance(c.func, ast.Attribute) and c.func.attr == 'append' and isinstance(c.func.value, ast.Name) and len(c.args) == 1
+                and not c.keywords):
+            return False
+        xs = c.func.value.id
+        cur = st.env.get(xs)
+        empty = cur is not None and ((cur.sort == 'PyList' and not cur.meta.get('items'))
+                                     or (isinstance(cur.e, str) and (cur.e in ('cnil', 'nil', 'tanil') or cur.e.startswith('(as seq.empty'))))
+        if not empty:
+            return False
+        if any(isinstance(n, ast.Name) and n.id == xs for n in ast.walk(c.args[0])) or any(isinstance(n, ast.Name) and n.id == xs for n in ast.walk(s.iter)):
+            return False
+        if any(isinstance(n, (ast.Yield, ast.YieldFrom, ast.NamedExpr)) for n in ast.walk(c.args[0])):
+            return False
+        comp = ast.ListComp(elt=c.args[0], generators=[ast.comprehension(target=s.target, iter=s.iter, ifs=[], is_async=0)])
+        asg = ast.Assign(targets=[ast.Name(id=xs, ctx=ast.Store())], value=comp, lineno=s.lineno)
+        ast.copy_location(asg, s)
+        ast.fix_missing_locations(asg)
+        # (a comprehension's variable is local to it; the loop variable would stay bound after the loop: it is not used afterwards in
+        # the supported shape - a later read of it finds no binding and leaves the subset)
+        self.exec_block([asg], st, k)
+        return True
 
     def for_unroll(self, s, items, st, k):
         n = self.loop_ord[id(s)]
